@@ -60,6 +60,12 @@ def generate(g, tier):
         if d1 != d2 and g.chance(0.5): files[decoy] = 'STRING decoy'
         where = r.choice(['top', 'if', 'func', 'loop'])
         imp = f'{kw} {import_name(main, lib)}'
+        # every spelling of the command: letter case, and the `$` form whose argument is an expression that evaluates to the name
+        sp = r.random()
+        nm_ = import_name(main, lib)
+        if sp < 0.2: imp = f'${kw} "{nm_}"'
+        elif sp < 0.3: imp = f'${kw.lower()} "{nm_[:len(nm_) // 2]}"+"{nm_[len(nm_) // 2:]}"'
+        elif sp < 0.4: imp = f'{kw.capitalize()} {nm_}'
         pre = 'VAR shared 10\n'
         if where == 'top': body = imp + '\n'; reps = 1
         elif where == 'if': body = f'IF TRUE\n    {imp}\n    $STRING "in="+shared\n'; reps = 1
